@@ -152,6 +152,7 @@ func (w *Worker) fallback(pc []*Term, more []*Term, syms []*Term, extra string, 
 // excluded with blocking clauses so that any *other* violation still shows.
 // It returns true when execution may continue (cond assumed).
 func (ex *Exec) checkObligation(cond *Term, kind, msg string, pos token.Pos) {
+	ex.checkBudget()
 	ex.w.stats.Obligations++
 	ps := ex.posStr(pos)
 	ob := Obligation{Kind: kind, Msg: msg, Pos: ps, Path: append([]Decision{}, ex.decs...)}
